@@ -8,6 +8,7 @@
    and content-type text are CR/LF-free printable text) which the check evaluates on the real tables. *)
 From SV Require Import Base.Bytes Base.BytesP Model.Headers Model.IOSched Spec.ChunkDecode Model.Chunked
                        Spec.RespParse Model.Response Proofs.IOSchedP Proofs.ChunkedP Proofs.RespParseP Proofs.ResponseP.
+From SV Require Import Generated.SourceParams Tie.ContentTypeTie.
 
 (* C06.1  Round trip.  For every table, every response in the property's domain (normal; status
    100..999; any content type whose text is printable without edge blanks; any list of extra fields
@@ -160,6 +161,14 @@ Example c06_nonvacuous :
           [104;101;108;108;111], []).
 Proof. vm_compute. repeat split; reflexivity. Qed.
 
+(* C06.src  the texts ContentType::as_str returns for its fixed variants, re-read from
+   src/content_type.rs ON THIS RUN, are legal field values (printable, CR/LF-free, no edge blanks):
+   the content-type half of the hypothesis head_ok, discharged against the current source *)
+Theorem c06_source_content_type_texts_ok :
+  forallb (fun e => ct_text_ok (snd e)) src_ct_as_str_table = true /\
+  map fst src_ct_as_str_table = map fst ct_names.
+Proof. exact ct_as_str_table_ok. Qed.
+
 Print Assumptions c06_serialize_parse_roundtrip.
 Print Assumptions c06_sound_response_is_written.
 Print Assumptions c06_partial_writes_invisible.
@@ -172,3 +181,4 @@ Print Assumptions c06_short_body_source.
 Print Assumptions c06_serialize_injective.
 Print Assumptions c06_numbers_roundtrip.
 Print Assumptions c06_oracle_sound.
+Print Assumptions c06_source_content_type_texts_ok.
